@@ -203,6 +203,7 @@ pub fn chunk_type(spec: &ChunkSpec) -> u16 {
         ChunkSpec::Tileset { .. } => 0x2023,
         ChunkSpec::OldPalette { kind, .. } => *kind,
         ChunkSpec::Raw { ty, .. } => *ty,
+        ChunkSpec::Ignorable { ty, .. } => *ty,
     }
 }
 
@@ -391,7 +392,7 @@ fn write_chunk_body(w: &mut Writer, spec: &ChunkSpec, fmt: Fmt) {
             w.bytes(Kind::Payload, "bits", &[0xaa]);
         }
         ChunkSpec::Path => {}
-        ChunkSpec::Raw { data, .. } => {
+        ChunkSpec::Raw { data, .. } | ChunkSpec::Ignorable { data, .. } => {
             w.bytes(Kind::Payload, "data", data);
         }
     }
